@@ -66,8 +66,11 @@ def base_A():
                        'hydraulic_diameter': 0.004, 'epsilon': 0.0,
                        'htc_params': [0.023, 0.8, 0.4, 7.0],
                        'convection_factor': 0.9},
-        'upper_refl': {'z_lo': 0.32, 'z_hi': 0.4, 'vf_coolant': 0.35,
-                       'structure_material': 'ht9_se2anl_425'}}
+        'upper_refl': {'z_lo': 0.32, 'z_hi': 0.36, 'vf_coolant': 0.35,
+                       'structure_material': 'ht9_se2anl_425'},
+        # a second region stacked on the first (region pairs above the bundle can overlap
+        # while the bundle gap stays intact)
+        'outlet_refl': {'z_lo': 0.36, 'z_hi': 0.4, 'vf_coolant': 0.4}}
     spacer = {'corr': 'REH', 'axial_positions': [0.12, 0.2, 0.28],
               'solidity': 0.3}
     fuel = {'clad_material': 'ht9_se2anl_425',
@@ -96,11 +99,15 @@ def base_B():
     refl = S.design(2, pd=1.1, hd=20, ducts=1, oftf=0.06, clearance='loose',
                     wire=True, lowfi={'model': 'simple',
                                       'convection_factor': 0.8})
+    # a third type, defined BETWEEN the other two in the [Assembly] section (checks that compare
+    # assembly types with each other must look at every type, not only the first and the last)
+    mid = S.design(2, pd=1.25, hd=20, ducts=1, oftf=0.06, clearance='mid', wire=True,
+                   corr=('CTD', 'CTD', 'CTD'))
     assign = [['fuel', 1, 1, {'flowrate': 3.5}]]
     asm = {}
     for p in range(1, 7):
         assign.append(['fuel', 2, p, {'flowrate': 3.0}] if p % 2 else
-                      ['refl', 2, p, {'flowrate': 1.0}])
+                      [('mid' if p == 6 else 'refl'), 2, p, {'flowrate': 1.0}])
     for i in range(1, 8):
         if i == 1 or (i - 1) % 2 == 1:
             asm[str(i)] = {'rings': 3, 'nduct': 2, 'cells': [0.0, 0.15, 0.3],
@@ -118,7 +125,7 @@ def base_B():
                      'pitch': 0.063, 'gap_model': 'flow',
                      'bypass_fraction': 0.1,
                      'htc_params_duct': [0.025, 0.8, 0.8, 7.0]},
-            'types': {'fuel': fuel, 'refl': refl}, 'assign': assign,
+            'types': {'fuel': fuel, 'mid': mid, 'refl': refl}, 'assign': assign,
             'power': {'asm': asm}}
 
 
@@ -633,7 +640,7 @@ def apply_sec(lines, ents, e, fault):
 PF_FAULTS = {
     'pf:neg-coeff': 'negative-power', 'pf:neg-all': 'negative-power',
     'pf:neg-slope': 'negative-power', 'pf:neg-duct': 'negative-power',
-    'pf:neg-cool': 'negative-power',
+    'pf:neg-cool': 'negative-power', 'pf:neg-interior': 'negative-power',
     'pf:nan-coeff': 'malformed-power', 'pf:inf-coeff': 'malformed-power',
     'pf:text-cell': 'malformed-power', 'pf:empty-cell': 'malformed-power',
     'pf:drop-pin-row': 'malformed-power', 'pf:drop-pin': 'malformed-power',
@@ -682,6 +689,15 @@ def apply_pf(files, fault):
         if len(r) < 7:
             return False
         r[6] = repr(-4.0 * abs(float(r[5])))
+    elif f == 'neg-interior':
+        # non-negative at both ends of the cell, negative in its interior:
+        # p(x) = -0.5 c + 4 c x^2 on [-1/2, 1/2]  ->  ends +0.5 c, centre -0.5 c
+        r = rows[0]
+        c0 = abs(float(r[5]))
+        for rr_ in rows:
+            while len(rr_) < 8:
+                rr_.append('0.0')
+        r[5:8] = [repr(-0.5 * c0), '0.0', repr(4.0 * c0)]
     elif f in ('neg-duct', 'neg-cool'):
         comp = 2 if f == 'neg-duct' else 3
         for r in rows:
